@@ -221,6 +221,23 @@ func (h *RunHarness) ReadFaultSkip(name string, n, skip int) {
 	h.mu.Unlock()
 }
 
+// ClearFaults withdraws the pending read / write faults of all registers with the given name prefix.
+func (h *RunHarness) ClearFaults(prefix string) {
+	h.mu.Lock()
+	for k := range h.rfault {
+		if strings.HasPrefix(k, prefix) {
+			delete(h.rfault, k)
+			delete(h.rskip, k)
+		}
+	}
+	for k := range h.wfault {
+		if strings.HasPrefix(k, prefix) {
+			delete(h.wfault, k)
+		}
+	}
+	h.mu.Unlock()
+}
+
 // WriteFault makes the next n writes of a register fail.
 func (h *RunHarness) WriteFault(name string, n int) {
 	h.mu.Lock()
